@@ -26,7 +26,7 @@ if [ "${1:-}" = "replay" ]; then
   exit 1
 fi
 
-TIER="${1:-quick}"; SEED="${2:-1}"
+TIER="${1:-quick}"; SEED="${2:-1}"; export VSIM_TIER="$TIER"
 case "$TIER" in quick) N=128;; *) N=3200;; esac
 W=16
 rm -rf "$LOGS"; mkdir -p "$LOGS"
